@@ -1004,7 +1004,7 @@ class ThematicBreak(BlockToken):
     Thematic break token (a.k.a. horizontal rule.)
     This is a leaf block token without children.
     """
-    pattern = re.compile(r' {0,3}(?:([-_*])\s*?)(?:\1\s*?){2,}$')
+    pattern = re.compile(r' {0,3}(?:([-_*])[ \t]*?)(?:\1[ \t]*?){2,}$')
 
     def __init__(self, lines):
         self.line = lines[0].strip('\n')
